@@ -220,6 +220,10 @@ impl Property for RefProp {
     }
 
     fn check_case(&self, case: &Json, stats: &mut Stats) -> Verdict {
+        if self.id() == "C13" && matches!(case["kind"].as_str(), Some("unary" | "infix" | "binary" | "near-miss" | "program")) {
+            // a case of the cell-typing part (matrix / near misses under the monitor)
+            return crate::props::soundness::C13_CELLS.check_case(case, stats);
+        }
         if case["kind"].as_str() == Some("probe") {
             // a fixed program with its documented outcome and a signature of its own
             let text = case["text"].as_str().unwrap_or("");
